@@ -81,6 +81,13 @@ type scriptSpec struct {
 	// Poison marks a script whose purpose is the poison bursts (its other
 	// traffic is only the warm-up and background).
 	Poison bool `json:"poison_script,omitempty"`
+	// MixedBursts > 0: that many mixed-eligibility bursts (mixed.go), one every
+	// 2 s from MixedFrom ms on: cache hits that a worker answers interleaved
+	// with strict-ineligible / wire-born questions whose resolution is slow.
+	// Mixed marks a script whose purpose they are.
+	MixedBursts int  `json:"mixed_bursts,omitempty"`
+	MixedFrom   int  `json:"mixed_from_ms,omitempty"`
+	Mixed       bool `json:"mixed_script,omitempty"`
 	Seed     uint64    `json:"seed"`
 }
 
@@ -142,15 +149,27 @@ func baseScripts() []scriptSpec {
 			Zone: faultMix{Honest: 1, TCPAnswer: 1}, TLD: faultMix{Honest: 1, TCPAnswer: 1},
 			Waves: 7, WaveSize: 24, Patterns: []patternWeight{{"distinct-zone", 3}, {"repeat", 3}, {"spread", 2}, {"burst-same", 1}},
 			PoisonBursts: 40, PoisonFrom: 450, Poison: true},
+		// ---- mixed-eligibility scripts (mixed.go): honest single-server zones,
+		// one or two workers and a short ready queue, so that cache hits and slow
+		// strict-ineligible questions share a worker's transmit burst; besides a
+		// token warm-up wave nothing else is in flight but the control client.
+		{Name: "mixed-elig-1w", Tweaks: envTweaks{ZoneServers: zs(1, 1, 1, 1), TinyMemory: true, IngressWorkers: 1, IngressQueue: 12},
+			Zone: faultMix{Honest: 1, TCPAnswer: 1}, TLD: faultMix{Honest: 1, TCPAnswer: 1},
+			Waves: 1, WaveSize: 6, Patterns: []patternWeight{{"distinct-zone", 1}},
+			MixedBursts: 6, MixedFrom: 700, Mixed: true},
+		{Name: "mixed-elig-2w", Tweaks: envTweaks{ZoneServers: zs(1, 1, 1, 1), IngressWorkers: 2, IngressQueue: 10},
+			Zone: faultMix{Honest: 1, TCPAnswer: 1}, TLD: faultMix{Honest: 1, TCPAnswer: 1},
+			Waves: 1, WaveSize: 6, Patterns: []patternWeight{{"distinct-zone", 1}},
+			MixedBursts: 6, MixedFrom: 700, Mixed: true},
 	}
 }
 
-// nBaseScripts counts the scripts of a list that are not dedicated poison
-// scripts (the Require minimums of the general counters are per such script).
+// nBaseScripts counts the scripts of a list that are not dedicated poison or
+// mixed-eligibility scripts (the Require minimums of the general counters are per such script).
 func nBaseScripts(list []scriptSpec) int64 {
 	n := int64(0)
 	for _, s := range list {
-		if !s.Poison {
+		if !s.Poison && !s.Mixed {
 			n++
 		}
 	}
@@ -330,6 +349,7 @@ type planned struct {
 	noPace  bool // written back-to-back on one socket, no pacing (one receive batch)
 	burst   int  // > 0: member of that poison burst (plan.bursts[burst-1]); the whole burst is written back-to-back
 	sock    int  // burst members: index of the pooled client socket that sends it
+	mixed   int  // > 0: member of that mixed-eligibility burst (mixed.go)
 }
 
 // burstPlan is one poison burst: its members in SEND ORDER (ordinary queries
